@@ -757,7 +757,10 @@ def getitem(I, o, k):
     if is_sym(k):
         raise Undecided(f"symbolic index into {type(o).__name__}")
     if isinstance(o, dict) and any(is_sym(x) for x in o.keys()):
-        raise Undecided("dict with symbolic keys")
+        for kk in list(o.keys()):
+            if truth(I, compare(I, ast.Eq(), k, kk)):
+                return o[kk]
+        raise PyRaise(KeyError(k), implicit=True)
     try:
         return o[k]
     except Exception as ex:
@@ -789,6 +792,14 @@ def setitem(I, o, k, v):
             if truth(I, compare(I, ast.Eq(), k, kk)):
                 o[kk] = v
                 return
+        # a key different from all present ones (decided by the comparisons above): the symbolic value itself is
+        # stored as the key (identity-hashed); look-ups compare against it explicitly
+        if isinstance(k, (SInt, SBool)) or (isinstance(k, SBytes) and not k.mutable):
+            try:
+                dict.__setitem__(o, k, v)
+                return
+            except TypeError:
+                pass
         raise Undecided("insertion of a fresh symbolic key into a dict")
     if is_sym(k):
         raise Undecided("symbolic key")
